@@ -112,7 +112,7 @@ PROPS = {
         "technique": T_R3,
     },
     "C06": {
-        "clauses": [both(r3.check_radix), r7.check_bases, r7.check_formatters, r9.check_sign_readers, r1.check_biguint_normal_form],
+        "clauses": [both(r3.check_radix), r3.check_parse_validation_order, r7.check_bases, r7.check_formatters, r9.check_sign_readers, r1.check_biguint_normal_form],
         "not_decided": "bit-regrouping and chunked Horner/division arithmetic, the accept/reject language of the digit classifier, padding (delegated to core::fmt)",
         "level_text": "Decides: all 14 radix-taking entry points (7 per type) enforce their documented range - 2..=36 for text, 2..=256 for digit vectors - by a non-debug "
         "assertion of their own or of the callee they forward the radix to, constants read from the MIR comparison operands, in dev and release builds; "
